@@ -50,7 +50,7 @@ Qed.
 Lemma js_receiver_reify en pc x s : js_ok en x ->
   js_receiver (reify_e en pc x) s = if needs_paren en x then ("(" ++ s ++ ")")%string else s.
 Proof.
-  destruct x as [n|k|n|i|i|n|n|o a b|a|a|f args|f args|items|items|fam pid a|pid it mn|tk ti]; intros Hok; cbn [reify_e needs_paren js_receiver]; try reflexivity.
+  destruct x as [n|k|n|i|i|n|n|o a b|a|a|f args|f args|items|items|fam pid a|pid it mn|tk ti|tn|an ax]; intros Hok; cbn [reify_e needs_paren js_receiver]; try reflexivity.
   - rewrite str_of_int_no_quote. reflexivity.
   - destruct (nth k (e_consts en) (CInt 0)); cbn [const_node js_receiver]; [|rewrite str_of_int_no_quote; reflexivity].
     match goal with |- context[starts_with ?q ?t] => destruct (starts_with q t) end; reflexivity.
@@ -61,6 +61,7 @@ Proof.
   - rewrite reify_args_eq. destruct (reify_args en pc items); reflexivity.
   - destruct fam; reflexivity.
   - destruct tk; reflexivity.
+  - unfold the_name_node. destruct (assoc_str (nm en tn) ASSIGN_KNOWN_PROPERTIES); reflexivity.
 Qed.
 
 (* ---- object properties ---- *)
@@ -79,6 +80,7 @@ Proof.
   - match goal with |- context [let '(a, b) := ?X in _] => destruct X end. destruct items; reflexivity.
   - destruct f; reflexivity.
   - destruct k; reflexivity.
+  - unfold the_name_node. destruct (assoc_str (nm en n) ASSIGN_KNOWN_PROPERTIES); reflexivity.
 Qed.
 
 Lemma objref_js fm en pc x : PJs fm en x -> js_ok en x -> forall k po ind,
@@ -120,6 +122,8 @@ Proof.
   - injection H as <-. apply String.eqb_eq in E. subst. left. reflexivity.
   - right. auto.
 Qed.
+Lemma assign_owners_table : forallb (fun p : string * string => sys_owner_ok (snd p)) ASSIGN_KNOWN_PROPERTIES = true.
+Proof. vm_compute. reflexivity. Qed.
 Lemma sys_owner name : sys_owner_ok (assoc_or name SYSTEM_PROPERTIES) = true.
 Proof.
   unfold assoc_or. destruct (assoc_str name SYSTEM_PROPERTIES) as [v|] eqn:E; [|reflexivity].
@@ -178,6 +182,13 @@ Proof.
     apply andb_true_iff in Ho. destruct Ho as [Ho _]. apply andb_true_iff in Ho. destruct Ho as [Hme Htell].
     apply negb_true_iff in Hme. apply negb_true_iff in Htell.
     erewrite accessor_js; [reflexivity | | exact Htell]. cbn [gen_js js_leaf]. rewrite Hme, andb_false_r. reflexivity.
+  - (* the <name> *) intros n _ pc ind. cbn [reify_e to_js]. unfold the_name_node.
+    destruct (assoc_str (nm en n) ASSIGN_KNOWN_PROPERTIES) as [o|] eqn:E; [|reflexivity].
+    pose proof (proj1 (forallb_forall _ _) assign_owners_table _ (assoc_in0 _ _ _ E)) as Ho. cbn [snd] in Ho. unfold sys_owner_ok in Ho.
+    apply andb_true_iff in Ho. destruct Ho as [Ho _]. apply andb_true_iff in Ho. destruct Ho as [Hme Htell].
+    apply negb_true_iff in Hme. apply negb_true_iff in Htell.
+    erewrite accessor_js; [reflexivity | | exact Htell]. cbn [gen_js js_leaf]. rewrite Hme, andb_false_r. reflexivity.
+  - intros n x _ [].
   - intros _ pc ind. reflexivity.
   - intros x l IHx IHl [Hx Hl] pc ind. cbn [reify_args]. destruct (reify_args en (pc + zlen (compile_e x)) l) as [ns pa] eqn:Er.
     cbn [fst map]. rewrite (IHx Hx). specialize (IHl Hl (pc + zlen (compile_e x))%Z ind). rewrite Er in IHl. cbn [fst] in IHl. rewrite IHl. reflexivity.
@@ -212,6 +223,7 @@ Proof.
   - destruct (js_binop o); unfold js_recv; try destruct (needs_paren en x1); exact I.
   - destruct f; try exact I. reflexivity.
   - destruct k; exact I.
+  - destruct (assoc_str (nm en n) ASSIGN_KNOWN_PROPERTIES); exact I.
 Qed.
 Lemma read_count j t : (match j with JIdx m0 _ => is_menubar m0 = false | _ => True end) ->
   read_js (JDot (JDot j t) (js_una "number")) = option_map (NChunkCount t) (read_js j).
@@ -267,6 +279,13 @@ Proof.
       * destruct fm; reflexivity.
     + reflexivity.
     + cbn [read_js]. destruct (String.eqb _ "_global"); reflexivity.
+  - intros n. cbn [to_js name_e]. destruct (assoc_str (nm en n) ASSIGN_KNOWN_PROPERTIES) as [o|]; [cbn [read_js]; destruct (String.eqb o "_global"); reflexivity|].
+    unfold js_prop. cbn [read_js].
+    destruct (assoc_str (nm en n) VARIABLE_KNOWN_PROPERTIES) as [o|] eqn:E.
+    + pose proof (proj1 (forallb_forall _ _) owners_not_global _ (assoc_in _ _ _ E)) as H. cbn [snd] in H.
+      apply negb_true_iff in H. rewrite H. reflexivity.
+    + destruct fm; reflexivity.
+  - intros n x _. reflexivity.
   - constructor.
   - intros x l Hx Hl. constructor; assumption.
 Qed.
